@@ -1,0 +1,1 @@
+//! Verification hooks: `path_state` (thin pass-through wrappers; feature `verif-hooks` only).
